@@ -7,23 +7,17 @@ CONSTANTS
   Limit = 3
   Window = 4
   MaxRound = 3
-  MaxSnaps = 8
+  MaxSnaps = 6
   MaxEarly = 1
   Late = {}
   MaxPub = 1
   MaxAhead = 1
   Interleave = FALSE
-  Faults = FALSE
+  Faults = TRUE
   RefChoice = FALSE
   RemoteAnytime = FALSE
   Eager = TRUE
   Track = FALSE
 VIEW View
-INVARIANT TypeOK
-INVARIANT RemoteClosed
-INVARIANT NeverDropped
-PROPERTY SinceSafe
-PROPERTY OffsetMin
-PROPERTY HeadSafe
-PROPERTY HeadCoversFrontier
+ACTION_CONSTRAINT Emit
 CHECK_DEADLOCK FALSE
